@@ -289,6 +289,31 @@ def check_property(pid, tier="quick", seed=0, jobs=None):
         else:
             still_undecided.append(o)
     undecided = still_undecided
+    # a task the verifier could not execute at all (construct outside the supported subset, time-out): its clauses are
+    # undecided as a whole.  The task's native replay driver still checks them on the real code; a failing input
+    # found there is a violation (with that input), nothing found leaves the task undecided (exit 2).
+    tried_tasks = set()
+    for t, kind, msg in list(errors):
+        if kind not in ("unsupported", "timeout") or t in tried_tasks or len(tried_tasks) >= 4:
+            continue
+        name = f"{pid}.{t}.task_outside_verifier_reach"
+        driver = _driver_for(mod, pid, name)
+        if not driver:
+            continue
+        tried_tasks.add(t)
+        payload = dict(property=pid, obligation=name, task=t, verdict="undecided", backend="none",
+                       verifier_output=dict(goal=f"{kind}: {msg[:500]}", model=None, path=None), smt2="")
+        rep = run_replay_driver(driver, payload)
+        if rep and rep.get("reproduced"):
+            os.makedirs(replay_dir, exist_ok=True)
+            rp = os.path.join(replay_dir, name.replace("/", "_") + ".json")
+            payload["replay"], payload["replay_driver"] = rep, driver
+            with open(rp, "w") as f:
+                json.dump(payload, f, indent=1, default=str)
+            violations.append(dict(name=name, task=t))
+            lines.append(f"VIOLATION property={pid} replay={os.path.relpath(rp, VERIF)}")
+            lines.append(f"  task {t} is outside the verifier's reach on this tree ({kind}: {msg[:160]}); its clauses are violated on the real code")
+            lines.append(f"  replayed on the real code: {str(rep.get('witness'))[:300]}")
     n_ob = len([o for o in obligations if o["name"] not in known_names])
     n_dis = sum(1 for o in obligations if o["verdict"] == "discharged")
     level = getattr(mod, "LEVEL", "proof")
